@@ -1,5 +1,8 @@
 #!/bin/bash
 # tools/confirm_seeded.sh <seeded-name> <crate> <crate-dir> <demo-file.rs>
+#   env EXTRA="--features x"      extra cargo test arguments
+#   env INCRATE=<path rel. to repo> demo is an in-crate test module copied there (run with --lib only);
+#   env WIRING=<diff in demo/>     applied before both runs (registers the in-crate module)
 # Coordinator-side confirmation of a seeded change in a scratch worktree (/tmp/mutrepo2), never in /repo:
 #   1. existing tests of the crate (--lib) + the demo integration test WITHOUT the patch -> must all pass
 #   2. the same WITH the patch -> existing tests pass, demo fails
@@ -9,9 +12,16 @@ W=/tmp/mutrepo2; S=/verif/seeded/$N; L=/tmp/mutconfirm/$N.log
 mkdir -p /tmp/mutconfirm
 [ -d $W ] || git -C /repo worktree add --detach $W HEAD >/dev/null
 cd $W; git checkout -q -- .; git clean -fdq -e target
-mkdir -p $W/$CDIR/tests; cp $S/demo/$FILE $W/$CDIR/tests/$FILE
 STEM=${FILE%.rs}
-run() { CARGO_NET_OFFLINE=true nice cargo test --offline -p $CRATE --no-fail-fast --lib --test $STEM 2>&1 | grep -E "^test result|^test .*FAILED|^error(\[|:)|Running" | cut -c1-200; }
+if [ -n "${INCRATE:-}" ]; then
+  cp $S/demo/$FILE $W/$INCRATE; TARGETS="--lib"
+  prep() { cp $S/demo/$FILE $W/$INCRATE; [ -n "${WIRING:-}" ] && git apply $S/demo/$WIRING; }
+else
+  TARGETS="--lib --test $STEM"
+  prep() { mkdir -p $W/$CDIR/tests; cp $S/demo/$FILE $W/$CDIR/tests/$FILE; }
+fi
+prep
+run() { CARGO_NET_OFFLINE=true nice cargo test --offline -p $CRATE --no-fail-fast ${EXTRA:-} $TARGETS 2>&1 | grep -E "^test result|^test .*FAILED|^error(\[|:)|Running" | cut -c1-200; }
 echo "== WITHOUT patch: existing lib tests + demo" > $L; run >> $L
 git apply $S/patch.diff || echo "PATCH DOES NOT APPLY" >> $L
 echo "== WITH patch: existing lib tests + demo" >> $L; run >> $L
